@@ -113,6 +113,12 @@ pub fn ev_cases(pl: &Plain, two_d: bool, thorough: bool) -> Vec<EvCase> {
                 v.push(EvCase { label: format!("forty level crossings step {}", k), specs: levels, known_root: None });
             }
         }
+        // a function exactly zero at the start of the step (its event is the previous accepted point) after a
+        // lower-numbered function that needs a real root search inside the same step
+        v.push(EvCase { label: format!("interior root then zero at step start {}", k), specs: vec![t(a), t(pl.xs[k])], known_root: Some(a) });
+        if let Ok(y) = sol.sol(b) {
+            v.push(EvCase { label: format!("level crossing then zero at step start {}", k), specs: vec![EventSpec::new(EvKind::Y(0, y[0])), nt(pl.xs[k]), t(pl.xs[k])], known_root: None });
+        }
         // a terminal event among several functions firing in the same step (either side of the others)
         v.push(EvCase { label: format!("term pair: other before step {}", k), specs: vec![t(a), t(b).term(1)], known_root: Some(a) });
         v.push(EvCase { label: format!("term pair: other after step {}", k), specs: vec![t(b), t(a).term(1)], known_root: Some(b) });
@@ -509,7 +515,9 @@ fn run_case_c10(cx: &Ctx, key: &str, ec: &EvCase, tj: usize, count: usize, with_
                     let got = &s1.t_events[i];
                     // events of other functions at exactly the stopping time may go either way
                     let tie_ok: Vec<f64> = s0.t_events[i].iter().copied().filter(|t| before(*t, tstop, dir) || *t == tstop).collect();
-                    let ok_i = bits_eq(got, &want) || (i != tj && bits_eq(got, &tie_ok));
+                    // (any number of them: a function exactly zero on an accepted step end is reported once by
+                    // each adjacent step, and the stop may fall between the two)
+                    let ok_i = bits_eq(got, &want) || (i != tj && got.len() >= want.len() && got.len() <= tie_ok.len() && bits_eq(got, &tie_ok[..got.len()]));
                     if !ok_i {
                         vs.push(("events-prefix".into(), format!("event {}: with the terminal flag {:?}, without it (up to the stop at {:e}) {:?}", i, got, tstop, want)));
                     }
@@ -721,6 +729,72 @@ pub fn run_check(mode: Mode, replay: Option<Value>) -> i32 {
                         None => rep.violations.push(Violation::new(&key, "outcome", format!("zero-length run ended with {}", r.outcome_name()), json!({"key": key})).with("method", mname(m))),
                     }
                 }
+            }
+        }
+    }
+    if mode == Mode::C10 || mode == Mode::C08 {
+        // the EventConfig setters: every sequence of up to three calls leaves the documented state
+        // ("terminal(): turn on termination after the first occurrence", the last call wins)
+        #[derive(Clone, Copy, Debug)]
+        enum Call {
+            Term,
+            Count(usize),
+            Dir(Direction),
+            All,
+            Pos,
+            Neg,
+        }
+        let calls = [Call::Term, Call::Count(2), Call::Count(5), Call::Dir(Direction::Negative), Call::All, Call::Pos, Call::Neg];
+        let mut seqs: Vec<Vec<Call>> = vec![vec![]];
+        for len in 1..=3 {
+            let prev: Vec<Vec<Call>> = seqs.iter().filter(|q| q.len() == len - 1).cloned().collect();
+            for q in prev {
+                for c in calls {
+                    let mut w = q.clone();
+                    w.push(c);
+                    seqs.push(w);
+                }
+            }
+        }
+        for q in &seqs {
+            let mut cfg = EventConfig::new();
+            let (mut want_t, mut want_d): (Option<usize>, Direction) = (None, Direction::All);
+            for c in q {
+                match c {
+                    Call::Term => {
+                        cfg.terminal();
+                        want_t = Some(1);
+                    }
+                    Call::Count(n) => {
+                        cfg.terminal_count(*n);
+                        want_t = Some(*n);
+                    }
+                    Call::Dir(d) => {
+                        cfg.direction(*d);
+                        want_d = *d;
+                    }
+                    Call::All => {
+                        cfg.all();
+                        want_d = Direction::All;
+                    }
+                    Call::Pos => {
+                        cfg.positive();
+                        want_d = Direction::Positive;
+                    }
+                    Call::Neg => {
+                        cfg.negative();
+                        want_d = Direction::Negative;
+                    }
+                }
+            }
+            rep.evaluations += 1;
+            let key = format!("eventconfig:{:?}", q).replace(' ', "");
+            if only.as_ref().map(|o| *o != key).unwrap_or(false) {
+                continue;
+            }
+            let ok_here = if mode == Mode::C10 { cfg.terminal_count == want_t } else { cfg.direction == want_d };
+            if !ok_here {
+                rep.violations.push(Violation::new(&key, "event-config", format!("after the calls {:?} the configuration is (terminal_count {:?}, direction {:?}), expected ({:?}, {:?})", q, cfg.terminal_count, cfg.direction, want_t, want_d), json!({"key": key})));
             }
         }
     }
